@@ -171,6 +171,62 @@ def run_main(rec, seed, shard, nshards, tier):
     core.hyp_run(rec, prop, cases(), n, seed)
 
 
+# ---------------------------------------------------------------- password_scorer.py (CLI) == library
+_CLI = [None]
+
+
+def prop_cli(case, rec):
+    """password_scorer.py run as a subprocess must write exactly the tuples PCFGPasswordScorer.parse returns (tab separated)."""
+    import subprocess
+    import sys
+    from .. import session
+    from .c19 import valid_password, encodable
+    if _CLI[0] is None or not os.path.isdir(_CLI[0]):
+        _CLI[0] = session.copy_cli(session.make_root('c13cli'))
+    root = _CLI[0]
+    enc = 'utf-8'
+    pws = []
+    for p, c in case['entries']:
+        pws += [p] * c
+    path = os.path.join(_dir(), 'train.txt')
+    trainer.write_training_file(path, pws, enc)
+    out = os.path.join(root, 'Rules', 'T')
+    r = guard(case, trainer.train, path, out, encoding=enc, coverage=case['coverage'], ngram=case['ngram'], alphabet_size=100)
+    if not r.ok:
+        rec.skip('trainer_did_not_complete')
+        return
+    sc = build_scorer(out, case)
+    cands = [c for c in dict.fromkeys(list(dict.fromkeys(pws)) + [x for s_ in list(dict.fromkeys(pws))[:6] for x in perturb(s_)] + case.get('extra', []) +
+                                      pwgen.EMAILISH[:3] + pwgen.WEBISH[:3]) if valid_password(c) and encodable(c, enc) and not c.endswith('\r')]
+    inp = os.path.join(_dir(), 'score_in.txt')
+    trainer.write_training_file(inp, cands, enc)
+    outp = os.path.join(_dir(), 'score_out.txt')
+    if os.path.exists(outp):
+        os.remove(outp)
+    env = dict(os.environ, PYTHONUTF8='1', LC_ALL='C.UTF-8', PYTHONDONTWRITEBYTECODE='1', PYTHONWARNINGS='ignore')
+    try:
+        p = subprocess.run([sys.executable, os.path.join(root, 'password_scorer.py'), '-r', 'T', '-i', inp, '-o', outp], stdin=subprocess.DEVNULL,
+                           capture_output=True, text=True, env=env, cwd=root, timeout=600)
+    except subprocess.TimeoutExpired:
+        rec.skip('cli_timeout_inconclusive')
+        return
+    if not os.path.exists(outp):
+        raise Violation('cli_no_output', f'password_scorer.py wrote no output file; rc={p.returncode}; tail: {(p.stdout + p.stderr)[-400:]}', case)
+    got = open(outp, encoding=enc).read().split('\n')
+    if got and got[-1] == '':
+        got.pop()
+    want = ['\t'.join(str(x) for x in guard(case, sc.parse, c)) for c in cands]
+    rec.case({'candidates': len(cands), 'sample': want[:3]}, len(cands) >= 5, ['cli_scorer'], key=[case['entries'], case['coverage'], case['ngram'], 'cli'])
+    if got != want:
+        k = next((i for i, (a, b) in enumerate(zip(got, want)) if a != b), min(len(got), len(want)))
+        raise Violation('cli_differs_from_library', f'password_scorer.py output line {k}: {got[k:k + 2]} vs library {want[k:k + 2]} ({len(got)} vs {len(want)} lines)', case)
+
+
+def run_cli(rec, seed, shard, nshards, tier):
+    n = {'quick': 3, 'thorough': 40}[tier]
+    core.hyp_run(rec, prop_cli, cases(), n, seed, shrink=(tier == 'thorough'))
+
+
 F13_CASE = {'entries': [['Kpassword', 3], ['password1', 6], ['Monkey12', 5], ['iloveyou', 5], ['K', 2], ['\u01c6emal1', 3]], 'encoding': 'utf-8',
             'coverage': 0.6, 'ngram': 3, 'extra': ['\u212a', '\u212apassword', '\u03f4', 'Monkey12', '\u01c5emal1', '\u01c4emal1', '\u01c6emal1']}
 
@@ -182,4 +238,5 @@ def run_probe(rec, seed, shard, nshards, tier):
 PARTS = [
     Part('regression_f13', run_probe, prop, {'quick': 1, 'thorough': 1}),
     Part('score_is_a_promise', run_main, prop, {'quick': 8, 'thorough': 16}),
+    Part('cli_scorer', run_cli, prop_cli, {'quick': 4, 'thorough': 8}),
 ]
